@@ -126,8 +126,19 @@ def monitor_c02(ctx):
                 'try_apply(w => match("aaaaaaaaaaaaaaaaaaaaaaaaaaaaaaaaaaaa!", "(a+)+$"), 0); 1', '1 / 0', '10 ** 999999 * 10 ** 999999',
                 'f = n => f(n + 1); f(0)', 'int("x")', 'undefined_name', 'pop([])', '{"a": 1}["b"]', 'round(1, 5000)', 'float("1e400")']:
         pays.append({'line': gens2.eval_line(src, budget=100000)})
-    return _run('c02', 'c02', pays, 'every builtin x argument shapes + random programs: deep type walk of every node result, the result and '
-                'the final names; Python audit events (open/os/subprocess/socket/import/exec/compile/ctypes) during eval')
+    a = _run('c02', 'c02', pays, 'every builtin x argument shapes + random programs: deep type walk of every node result, the result and '
+             'the final names; Python audit events (open/os/subprocess/socket/import/exec/compile/ctypes) during eval')
+    FAM = [['match(s, "\\d+")', 'match_all(s, "[a-z]")', 'match_groups(s, "(a)(1)")', 'match(s, "a", "i")', 'match(s, "(")'],
+           ['1 / 3', '2 ** 0.5', '1e400 * 1e400', '1 / 0', 'round(2.5)', 'floor(2.5)', 'ceil(1.2)', 'abs(-1)', 'int("12")', 'float("1.5")', 'str(1.5)', 'pretty(1234567)'],
+           ['shuffle(l)', 'rand()', 'rand(1, 6)', 'rand(l)'], ['sorted(l)', 'reversed(l)', 'enumerate(l)', 'sum(l)', 'max(l)', 'min(l)', 'join(l, ",")', 'index_of(l, 1)'],
+           ['split(s, "b")', 'replace(s, "a", "b")', 'strip(" a ")', 'startswith(s, "a")', 'endswith(s, "c")', 'lower("A")', 's.upper()', 'len(s)', '"x" + 1'],
+           ['map(l, v => v * 2)', 'filter(l, v => v > 1)', 'reduce(l, (a, b) => a + b)', 'sorted(l, v => 0 - v)', 'apply(v => v, 1)', 'try_apply(v => 1 / 0, 1)'],
+           ['{"a": 1}', 'dict()', 'list(1, 2)', 'keys(d)', 'values(d)', 'items(d)', 'get(d, "k")', 'x = {"a": [1]}; x["a"][0] = 2; del x["a"]; x'],
+           ['x = [1]; x.push(2); x', 'insert(l, 0, 1)', 'remove(l, 1)', 'pop(l)', 'y = l; y[0] += 1; y'], ['undefined_name', 'nofn(1)', '1 +', '$', 'f = n => f(n + 1); f(0)']]
+    b = _run('c02_process', 'c02_process', [{'srcs': f} for f in FAM],
+             'each builtin family evaluated FIRST in a pristine interpreter (forked from a process that imported the library and never '
+             'evaluated anything) with the audit hook armed around eval only: imports / file reads / compiles deferred to first use')
+    return _merge('c02', [a, b])
 
 
 # ------------------------------------------------------------------ C03
